@@ -52,8 +52,13 @@ def deadline (c : Ctx) (s : RState) (now : Time) (ttlArg : Nat) : Time :=
   | .utlru | .utmap | .utset => now + s.ttl
   | _ => 0
 
-/-- all outcomes of `do_insert_update` on one candidate -/
-def ins1 (c : Ctx) (s : RState) (now : Time) (k : Key) (v : Val) (a : Allow) (ttlArg : Nat) : List (RState × Bool) :=
+/-- all outcomes of `do_insert_update` on one candidate.  `surv` (plain flavor only): the keys the sweep
+after the call shows; when given, the victim is the first resident that is not among them — in a store
+without deadlines every resident that does not survive the call must be evicted during it and the
+order does not matter, so one path suffices (the caller falls back to trying every resident if that
+path does not explain the observation, e.g. a range that re-inserts a key it evicted). -/
+def ins1 (c : Ctx) (s : RState) (now : Time) (k : Key) (v : Val) (a : Allow) (ttlArg : Nat)
+    (surv : Option (List Key) := none) : List (RState × Bool) :=
   let d := deadline c s now ttlArg
   match getE s.ents k with
   | some e =>
@@ -63,7 +68,10 @@ def ins1 (c : Ctx) (s : RState) (now : Time) (k : Key) (v : Val) (a : Allow) (tt
   | none =>
     if a.ins then
       if c.fl != .eager && decide (c.cap ≤ s.ents.length) then
-        s.ents.map (fun w => ({ s with ents := put (delE s.ents w.key) { key := k, val := v, dl := d } }, true))
+        let vics : List Entry := match surv with
+          | some sv => (match s.ents.find? (fun (w : Entry) => !(sv.contains w.key)) with | some w => [w] | none => s.ents)
+          | none => s.ents
+        vics.map (fun w => ({ s with ents := put (delE s.ents w.key) { key := k, val := v, dl := d } }, true))
       else [({ s with ents := put s.ents { key := k, val := v, dl := d } }, true)]
     else [(s, false)]
 
@@ -88,11 +96,19 @@ def reap (c : Ctx) (s : RState) (now : Time) : RState × Nat :=
 def pre (c : Ctx) (s : RState) (now : Time) : RState :=
   if c.fl == .eager then (reap c s now).1 else s
 
-def insMany (c : Ctx) (now : Time) (a : Allow) : List (Key × Val × Nat) → List (RState × Nat) → List (RState × Nat)
-  | [], acc => acc
+/-- more simultaneous candidates than this and the script is given up as undecided (never as a
+failure): many expired-but-unreaped entries, or a long range into a full store, make the set of possible
+victims large -/
+def candLimit : Nat := 400
+
+/-- `none` = the candidate set outgrew `candLimit` -/
+def insMany (c : Ctx) (now : Time) (a : Allow) (surv : Option (List Key)) :
+    List (Key × Val × Nat) → List (RState × Nat) → Option (List (RState × Nat))
+  | [], acc => some acc
   | (k, v, t) :: xs, acc =>
-    let next := acc.flatMap (fun (s, n) => (ins1 c s now k v a t).map (fun (s', ok) => (s', n + (if ok then 1 else 0))))
-    insMany c now a xs (dedup next)
+    let raw := acc.flatMap (fun (s, n) => (ins1 c s now k v a t surv).map (fun (s', ok) => (s', n + (if ok then 1 else 0))))
+    if raw.length > candLimit then none else
+    insMany c now a surv xs (dedup raw)
 
 def lookMany (c : Ctx) (now : Time) : List Key → RState → RState × List (Option Val)
   | [], s => (s, [])
@@ -114,7 +130,7 @@ abbrev XOut := Option Out
 /-- all successors of one candidate under one public call -/
 def succ (c : Ctx) (s : RState) (now : Time) : Op → List (RState × XOut)
   | .insert k v a t => (ins1 c (pre c s now) now k v a t).map (fun (s', ok) => (s', some (.bool ok)))
-  | .insertRange xs a => (insMany c now a xs [(pre c s now, 0)]).map (fun (s', n) => (s', some (.nat n)))
+  | .insertRange _ _ => []   -- see `succ?`
   | .find k _ => let r := look1 c (pre c s now) now k; [(r.1, some (.opt r.2))]
   | .findRange ks _ => let r := lookMany c now ks (pre c s now); [(r.1, some (.opts r.2))]
   | .findCount k _ => let r := look1 c (pre c s now) now k; [(r.1, some (.opt r.2))]
@@ -127,6 +143,11 @@ def succ (c : Ctx) (s : RState) (now : Time) : Op → List (RState × XOut)
   | .size => [(s, some (.nat s.ents.length))]
   | .empty => [(s, some (.bool (s.ents.length == 0)))]
   | .capacity => [(s, some (.nat (if c.fl == .eager then 0 else c.cap)))]
+
+/-- `succ` with range inserts; `none` = too many candidates to enumerate -/
+def succ? (c : Ctx) (s : RState) (now : Time) (surv : Option (List Key)) : Op → Option (List (RState × XOut))
+  | .insertRange xs a => (insMany c now a surv xs [(pre c s now, 0)]).map (fun l => l.map (fun (s', n) => (s', some (.nat n))))
+  | op => some (succ c s now op)
 
 /-- value-level view of an implementation output (use counts dropped) -/
 def stripOut : Out → Out
@@ -208,10 +229,6 @@ def classify (c : Ctx) (e : Event) (cands : List (RState × XOut)) : List String
   let ps := dedup (outProps.1 ++ sweepProps.1 ++ obsProps.1 ++ rrP)
   (if ps.isEmpty then ["C02"] else ps, outProps.2 ++ sweepProps.2 ++ obsProps.2)
 
-/-- more simultaneous candidates than this and the script is given up as undecided (never as a
-failure): many expired-but-unreaped entries make the set of possible victims large -/
-def candLimit : Nat := 400
-
 /-- calls of ut_map/ut_set that start with the purge -/
 def purges : Op → Bool
   | .insert .. | .insertRange .. | .find .. | .findRange .. | .findCount .. | .erase .. | .eraseRange .. | .clean => true
@@ -225,7 +242,18 @@ def loop (c : Ctx) : List RState → Nat → List Event → Nat → Option Fail 
     if c.fl == .eager && purges e.op && e.obs.size != e.obs.sweep.length then
       (some ⟨idx, ["C02"], s!"eager-size-live size={e.obs.size} live={e.obs.sweep.length}"⟩, mx)
     else
-    let cands := cs.flatMap (fun s => succ c s e.now e.op)
+    -- plain flavor: first try the single canonical victim path guided by the survivors of this call
+    let surv : Option (List Key) := if c.fl == .plain then some (e.obs.sweep.map (·.1)) else none
+    let quick : List RState := match surv with
+      | some _ => (match cs.mapM (fun s => succ? c s e.now surv e.op) with
+        | some css => dedup ((css.flatten.filter (fun (s, x) => outOk x e.out && obsOk c s e.now e.obs)).map (·.1))
+        | none => [])
+      | none => []
+    if !quick.isEmpty then loop c quick (idx + 1) es (max mx quick.length) else
+    match cs.mapM (fun s => succ? c s e.now none e.op) with
+    | none => (none, candLimit + 1)
+    | some css =>
+    let cands := css.flatten
     let keep := dedup ((cands.filter (fun (s, x) => outOk x e.out && obsOk c s e.now e.obs)).map (·.1))
     if keep.isEmpty then
       let (ps, d) := classify c e cands
